@@ -318,3 +318,22 @@ def proof_coverage(ctx, extra):
 
 def hexs(b):
     return b.hex() if b else "-"
+
+
+def generic_replay(ctx, path):
+    """Re-runs the script of a replay file on the current tree and on the model."""
+    payload = json.load(open(path))
+    build(ctx, [])
+    port = payload.get("port", "pure")
+    script = payload.get("script", [])
+    impl, model = run_pair(ctx, port, script)
+    print("property:", payload.get("property"), "|", payload.get("what"))
+    for i, l in enumerate(script):
+        print("  op   :", l[:200])
+    for l in impl:
+        print("  impl :", l[:300])
+    for l in model:
+        print("  model:", l[:300])
+    still = first_diff(impl, model) is not None or (payload.get("impl") and impl[:len(payload["impl"])] == payload["impl"])
+    print("REPRODUCES" if still else "does not reproduce on the current tree")
+    return 1 if still else 0
